@@ -12,26 +12,30 @@ set_option linter.unusedSimpArgs false
 namespace LyModel.Diff
 open LyModel LyModel.Tree
 
+variable {fx : Fixes}
+
 /-- the loop over the diff children in `lyd_diff_apply_r` (also the loop of `lyd_diff_apply_all` over the roots) -/
-def applyF (S : Schema) (n : Nat) (hp : Bool) (inh : Option Op) (ds : List DNode) (data : List DNode) :
+def applyF (S : Schema) (fx : Fixes) (n : Nat) (hp : Bool) (inh : Option Op) (ds : List DNode) (data : List DNode) :
     Except AErr (List DNode) :=
-  ds.foldlM (fun ks c => applyNode S n ks hp inh c) data
+  ds.foldlM (fun ks c => applyNode S fx n ks hp inh c) data
 
 theorem applyF_nil {S : Schema} {n : Nat} {hp : Bool} {inh : Option Op} {data : List DNode} :
-    applyF S n hp inh [] data = .ok data := rfl
+    applyF S fx n hp inh [] data = .ok data := rfl
 
 theorem applyF_cons {S : Schema} {n : Nat} {hp : Bool} {inh : Option Op} {d : DNode} {ds data : List DNode} :
-    applyF S n hp inh (d :: ds) data = (applyNode S n data hp inh d).bind (applyF S n hp inh ds) := by
+    applyF S fx n hp inh (d :: ds) data = (applyNode S fx n data hp inh d).bind (applyF S fx n hp inh ds) := by
   simp only [applyF, List.foldlM_cons]
   rfl
 
 theorem apply_eq_applyF (S : Schema) (data D : List DNode) :
-    apply S data D = applyF S (heightL D + 1) false none D data := rfl
+    apply S data D fx = applyF S fx (heightL D + 1) false none D data := rfl
 
+/-- one step of `lyd_diff_apply_r` for a node that is not user-ordered (whatever repairs `fx` are in place: they concern
+user-ordered nodes only) -/
 theorem applyNode_succ_nuo {S : Schema} {n : Nat} {sibs : List DNode} {hp : Bool} {inh : Option Op} {d : DNode}
     (huo : S.isUserOrd d.sid = false) :
-    applyNode S (n + 1) sibs hp inh d =
-      match effOp inh d with
+    applyNode S fx (n + 1) sibs hp inh d =
+      match effOp d inh with
       | none => .error .eint
       | some .none =>
         match findForApply S sibs d with
@@ -42,9 +46,9 @@ theorem applyNode_succ_nuo {S : Schema} {n : Nat} {sibs : List DNode} {hp : Bool
           | some m =>
             if m.isTerm then .ok (sibs.set i (m.setDflt d.flags.dflt))
             else if (noKeys S d.kids).isEmpty then .error .einval
-            else (applyF S n true (childInh inh d) (noKeys S d.kids) m.kids).bind fun ks => .ok (sibs.set i (m.setKids ks))
+            else (applyF S fx n true (childInhOf d inh) (noKeys S d.kids) m.kids).bind fun ks => .ok (sibs.set i (m.setKids ks))
       | some .create =>
-        (applyF S n true (childInh inh d) (noKeys S d.kids) (dupSingle S d).kids).bind fun ks =>
+        (applyF S fx n true (childInhOf d inh) (noKeys S d.kids) (dupSingle S d).kids).bind fun ks =>
           .ok (insertNode S sibs ((dupSingle S d).setKids ks))
       | some .delete =>
         match findForApply S sibs d with
@@ -60,14 +64,17 @@ theorem applyNode_succ_nuo {S : Schema} {n : Nat} {sibs : List DNode} {hp : Bool
           | some m =>
             if m.val == d.val && !m.flags.dflt then .error .einval
             else .ok (sibs.set i ((m.setVal d.val).setFlags d.flags)) := by
-  unfold applyNode
-  simp only [huo, Bool.false_and, Bool.false_eq_true, ↓reduceIte, effOp, ownOp, childInh, applyF]
-  cases h : (getMeta d "operation").bind Op.ofBytes with
-  | none =>
-    cases inh with
-    | none => rfl
-    | some o => cases o <;> rfl
-  | some o => cases o <;> rfl
+  show applyStep S fx (applyNode S fx n) sibs hp inh d = _
+  unfold applyStep
+  cases h : effOp d inh with
+  | none => rfl
+  | some o =>
+    simp only [huo, Bool.false_and, Bool.false_eq_true, ↓reduceIte]
+    cases o with
+    | none => simp only [applyNone, applyKids, huo, Bool.and_false, Bool.false_eq_true, ↓reduceIte, applyF]; rfl
+    | create => simp only [applyCreate, applyKids, huo, Bool.and_false, Bool.false_eq_true, ↓reduceIte, applyF]; rfl
+    | delete => rfl
+    | replace => rfl
 
 /-! ## heights -/
 
